@@ -40,6 +40,8 @@ type Case struct {
 	TT    int      `json:"tt"`
 	Steps []Step   `json:"steps"`
 	UCI   bool     `json:"uci,omitempty"`
+	// Before (UCI leg): conforming position / ucinewgame lines sent on the same driver first (gen.EarlierPositions)
+	Before []string `json:"before,omitempty"`
 }
 
 // replayPV plays pv on the reference from p; returns an error naming the first illegal move.
@@ -178,6 +180,9 @@ func checkCase(c Case, rec *evid.Rec) (err error) {
 	if c.UCI {
 		ses = eng.NewSession()
 		ses.Send("setoption name Ponder value true")
+		for _, l := range c.Before {
+			ses.Send(l)
+		}
 		defer ses.Quit(30 * time.Second)
 	} else {
 		s = search.New(c.TT)
@@ -376,6 +381,9 @@ func TestC07(t *testing.T) {
 			for i := range c.Steps {
 				c.Steps[i].Depth = min(c.Steps[i].Depth, 7)
 				c.Steps[i].Nodes = gen.Draw(t, 50, 20000, "nodes")
+			}
+			if c.Before = gen.EarlierPositions(t, c.FEN, false, c.Moves); len(c.Before) > 0 {
+				rec.Class("uci_earlier_position_commands")
 			}
 			if rec.WantSample("uci") {
 				rec.Sample("uci", c)
